@@ -102,7 +102,13 @@ func c21Spawn(n int, opts ...RouterOption) *c21Router {
 			if ok {
 				st = fmt.Sprintf("state=%b", p.state.Load())
 			}
-			panic(fmt.Sprintf("c21: routee %d not running (%s); router running=%v routeesMap=%d children=%d", i, st, pid.IsRunning(), len(rt.impl.routeesMap), len(pid.Children())))
+			var dump []string
+			for id, rp := range rt.impl.routeesMap {
+				_, inTree := sys.tree().node(id)
+				dump = append(dump, fmt.Sprintf("%s state=%b inTree=%v proc=%d", rp.Name(), rp.state.Load(), inTree, rp.ProcessedCount()))
+			}
+			sort.Strings(dump)
+			panic(fmt.Sprintf("c21: routee %d not running (%s); router running=%v routeesMap=%d children=%d treeCount=%d now=%v dump=%v", i, st, pid.IsRunning(), len(rt.impl.routeesMap), len(pid.Children()), sys.tree().count(), time.Now(), dump))
 		}
 		rt.routees = append(rt.routees, p)
 	}
